@@ -21,6 +21,7 @@ UI = "udf/integration.py"
 
 
 def lean_str(s):
+    s = " ".join(s.split())
     return '"' + s.replace("\\", "\\\\").replace('"', '\\"') + '"'
 
 
@@ -384,3 +385,257 @@ def _():
         f"def full_log_arg : String := {lean_str(arg0)}\n"
         f"def full_log_out : String := {lean_str(out_kw)}\n"
         f"def full_fft_input : String := {lean_str(ast.unparse(spec.value))}\n")
+
+
+# ======================================================================================
+# Gen/Masks.lean  --  base/masks.py
+# ======================================================================================
+import trcore as _trcore  # noqa: E402
+
+_trcore.GEN_IMPORTS["Masks"] = ["BlobfinderModel.Model.Scalar"]
+_trcore.GEN_IMPORTS["Patterns"] = ["BlobfinderModel.Model.Scalar"]
+
+
+def _loop_assign(fn, target):
+    """assignment to `target` inside the (first) for loop of fn"""
+    loops = [n for n in ast.walk(fn) if isinstance(n, ast.For)]
+    if not loops:
+        raise Missing(f"loop in {fn.name}")
+    return find_assign(fn, target, within=loops[0]), loops[0]
+
+
+@fragment("Masks", "bin_val")
+def _():
+    fn = find_def(MK, "radial_bins")
+    d, lp = _loop_assign(fn, "diff")
+    v, _ = _loop_assign(fn, "vals")
+    params = [("width", RAT), ("r0", RAT), ("r", RAT)]
+    env = Env(vars={n: (n, t) for n, t in params})
+    dt, dty = tr(d.value, env)
+    env.vars["diff"] = ("diff", dty)
+    vt, vty = tr(v.value, env)
+    return lean_def("bin_val", params, RAT, [f"let diff : {dty} := {dt}"], coerce(vt, vty, RAT),
+                    "value of one radial bin at distance `r`: loop body of `radial_bins`")
+
+
+@fragment("Masks", "bin_layout")
+def _():
+    fn = find_def(MK, "radial_bins")
+    w = find_assign(fn, "width")
+    out = expr_def("bin_width", [("radius", RAT), ("radius_inner", RAT), ("n_bins", INT)], w.value,
+                   doc="`width` of `radial_bins`")
+    _, lp = _loop_assign(fn, "diff")
+    it = lp.iter
+    if isinstance(it, ast.Call) and ast.unparse(it.func) == "enumerate":
+        it = it.args[0]
+    out += ("\n/-- the iterable of bin centres `r0` (pinned textually; its value is modelled as\n"
+            "`radius_inner + k*width + width/2` and compared with NumPy by the correspondence) -/\n"
+            f"def bin_centers_expr : String := {lean_str(ast.unparse(it))}\n")
+    nb = [n for n in ast.walk(fn) if isinstance(n, ast.If) and ast.unparse(n.test) == "n_bins is None"]
+    if len(nb) != 1:
+        raise Missing("default n_bins")
+    out += f"def bin_default_n_expr : String := {lean_str(ast.unparse(nb[0].body[0].value))}\n"
+    return out
+
+
+@fragment("Masks", "bin_patch")
+def _():
+    fn = find_def(MK, "radial_bins")
+    pi = find_assign(fn, "patch_index", nth=0)
+    if ast.unparse(pi.value) != "None":
+        raise Untranslatable("patch_index is not initialised with None")
+    outer = [n for n in ast.walk(fn) if isinstance(n, ast.If)
+             and any(isinstance(s, ast.Assign) and ast.unparse(s.targets[0]) == "yy" for s in n.body)]
+    if len(outer) != 1:
+        raise Missing("the centre patch block of radial_bins")
+    outer = outer[0]
+    env = Env(vars={"radius_inner": ("radius_inner", RAT)})
+    c1, _ = tr(outer.test, env)
+    out = f"/-- first guard of the centre patch -/\ndef patch_guard (radius_inner : Rat) : Bool := {c1}\n"
+    asg = {ast.unparse(s.targets[0]): s for s in outer.body if isinstance(s, ast.Assign)}
+    for k, want in (("yy", "int(np.round(centerY))"), ("xx", "int(np.round(centerX))")):
+        if k not in asg or ast.unparse(asg[k].value) != want:
+            raise Untranslatable(f"patch pixel {k} is not {want}")
+    env2 = Env(vars={n: (n, INT) for n in ("yy", "xx", "imageSizeY", "imageSizeX")})
+    ins, _ = tr(asg["inside"].value, env2)
+    out += ("/-- the rounded centre pixel lies inside the image -/\n"
+            f"def patch_inside (yy xx imageSizeY imageSizeX : Int) : Bool := {ins}\n")
+    inner = [s for s in outer.body if isinstance(s, ast.If)]
+    if len(inner) != 1:
+        raise Untranslatable("patch block structure")
+    env3 = Env(subst={"r[yy * imageSizeX + xx]": ("rc", RAT)}, vars={"inside": ("inside", BOOL)})
+    c3, _ = tr(inner[0].test, env3)
+    out += ("/-- the patch is applied iff … (`rc` = distance of the rounded centre pixel from the centre) -/\n"
+            f"def patch_applies (inside : Bool) (rc : Rat) : Bool := {c3}\n")
+    if len(inner[0].body) != 1 or ast.unparse(inner[0].body[0]) != "patch_index = yy * imageSizeX + xx":
+        raise Untranslatable("patch_index assignment")
+    # the store into vals: `if i == 0 and patch_index is not None: vals[patch_index] = <value>`
+    _, lp = _loop_assign(fn, "diff")
+    stores = [n for n in ast.walk(lp) if isinstance(n, ast.Assign)
+              and ast.unparse(n.targets[0]) == "vals[patch_index]"]
+    if len(stores) != 1:
+        raise Missing("store of the patch value")
+    vt, vty = tr(stores[0].value, Env(vars={"radius_inner": ("radius_inner", RAT)}))
+    out += f"def patch_value (radius_inner : Rat) : Rat := {coerce(vt, vty, RAT)}\n"
+    guard = [n for n in ast.walk(lp) if isinstance(n, ast.If) and stores[0] in n.body]
+    if len(guard) != 1:
+        raise Untranslatable("guard of the patch store")
+    out += f"def patch_store_guard : String := {lean_str(ast.unparse(guard[0].test))}\n"
+    # order: the patch store precedes every normalisation `vals /= s` in the loop body
+    norm_lines = [n.lineno for n in ast.walk(lp) if isinstance(n, ast.AugAssign)
+                  and ast.unparse(n.target) == "vals" and isinstance(n.op, ast.Div)]
+    sel_lines = [n.lineno for n in ast.walk(lp) if isinstance(n, ast.Assign)
+                 and ast.unparse(n.targets[0]) == "select"]
+    before = all(stores[0].lineno < ln for ln in norm_lines + sel_lines) and bool(norm_lines)
+    out += ("/-- the patch is written into `vals` before the non-zero selection and the normalisation -/\n"
+            f"def patch_before_normalize : Bool := {lean_bool(before)}\n")
+    # nothing patches the stacked result after the loop
+    late = [n for n in stmts_of(fn) if n.lineno > lp.end_lineno and not isinstance(n, (ast.If, ast.Return))]
+    late_ifs = [n for n in stmts_of(fn) if n.lineno > lp.end_lineno and isinstance(n, ast.If)]
+    ok_tail = (not late and len(late_ifs) == 1 and ast.unparse(late_ifs[0].test) == "use_sparse")
+    out += f"def patch_only_in_loop : Bool := {lean_bool(ok_tail)}\n"
+    return out
+
+
+@fragment("Masks", "normalize")
+def _():
+    fn = find_def(MK, "radial_bins")
+    _, lp = _loop_assign(fn, "diff")
+    norms = [n for n in ast.walk(lp) if isinstance(n, ast.If) and ast.unparse(n.test) == "normalize"]
+    if len(norms) != 2:
+        raise Untranslatable(f"expected the normalisation in both the sparse and the dense branch ({len(norms)})")
+    texts = {" ; ".join(ast.unparse(s) for s in n.body) for n in norms}
+    if len(texts) != 1:
+        raise Untranslatable("sparse and dense normalisation differ")
+    return ("/-- body of `if normalize:` (identical in the sparse and dense branch) -/\n"
+            f"def normalize_body : String := {lean_str(texts.pop())}\n")
+
+
+@fragment("Masks", "rgbs_val")
+def _():
+    fn = find_def(MK, "radial_gradient_background_subtraction")
+    params = [("r", RAT), ("r0", RAT), ("r_outer", RAT), ("delta", RAT)]
+    env = Env(vars={n: (n, t) for n, t in params})
+    body = stmts_of(fn)
+    if ast.unparse(body[0]) != "result = np.zeros_like(r)" or ast.unparse(body[-1]) != "return result":
+        raise Untranslatable("rgbs prologue/epilogue")
+    pieces = []  # (cond, value) in program order; later stores override earlier ones
+    masks = {}
+    for s in body[1:-1]:
+        if not isinstance(s, ast.Assign):
+            raise Untranslatable(f"rgbs statement {ast.unparse(s)}")
+        tgt = s.targets[0]
+        if isinstance(tgt, ast.Name):
+            # mask definition: comparisons joined with `*` (logical and on boolean arrays)
+            def cond(e):
+                if isinstance(e, ast.BinOp) and isinstance(e.op, ast.Mult):
+                    return f"({cond(e.left)} && {cond(e.right)})"
+                t, ty = tr(e, env)
+                if ty != BOOL:
+                    raise Untranslatable("mask is not boolean")
+                return t
+            masks[tgt.id] = cond(s.value)
+        elif isinstance(tgt, ast.Subscript) and ast.unparse(tgt.value) == "result":
+            m = ast.unparse(tgt.slice)
+            if m not in masks:
+                raise Untranslatable(f"unknown mask {m}")
+            e2 = Env(subst={f"r[{m}]": ("r", RAT)}, vars=dict(env.vars))
+            v, vt = tr(s.value, e2)
+            pieces.append((masks[m], coerce(v, vt, RAT)))
+        else:
+            raise Untranslatable(f"rgbs statement {ast.unparse(s)}")
+    expr = "(0 : Rat)"
+    for c, v in pieces:
+        expr = f"(if {c} = true then {v} else {expr})"
+    return lean_def("rgbs_val", params, RAT, [], expr,
+                    "`radial_gradient_background_subtraction` at one pixel of radius `r`")
+
+
+@fragment("Masks", "bs_combine")
+def _():
+    fn = find_def(MK, "background_subtraction")
+    m = find_assign(fn, "mask")
+    params = [("mask_1", RAT), ("mask_2", RAT), ("sum_1", RAT), ("sum_2", RAT)]
+    out = expr_def("bs_combine", params, m.value, doc="`mask` of `background_subtraction` at one pixel")
+    want = {"mask_1": "circular(centerX, centerY, imageSizeX, imageSizeY, radius_inner, antialiased=antialiased)",
+            "sum_1": "np.sum(mask_1)",
+            "mask_2": "ring(centerX, centerY, imageSizeX, imageSizeY, radius, radius_inner, antialiased=antialiased)",
+            "sum_2": "np.sum(mask_2)"}
+    for k, v in want.items():
+        if ast.unparse(find_assign(fn, k).value) != v:
+            raise Untranslatable(f"background_subtraction: {k} = {ast.unparse(find_assign(fn, k).value)}")
+    return out
+
+
+@fragment("Masks", "disk_in")
+def _():
+    fn = find_def(MK, "_make_circular_mask")
+    ifs = [s for s in stmts_of(fn) if isinstance(s, ast.If)]
+    if len(ifs) != 1 or ast.unparse(ifs[0].test) != "antialiased":
+        raise Untranslatable("_make_circular_mask structure")
+    og = ifs[0].orelse[0]
+    if ast.unparse(og).replace("(", "").replace(")", "") != \
+            "x, y = np.ogrid[-centerY:imageSizeY - centerY, -centerX:imageSizeX - centerX]":
+        raise Untranslatable(f"ogrid: {ast.unparse(og)}")
+    m = ifs[0].orelse[1]
+    params = [("x", RAT), ("y", RAT), ("radius", RAT)]
+    out = expr_def("disk_in", params, m.value, doc="non-antialiased disk test; `x`, `y` are the offsets from the centre")
+    aa = ifs[0].body[0]
+    out += f"\ndef disk_aa_expr : String := {lean_str(ast.unparse(aa.value))}\n"
+    rg = find_def(MK, "ring")
+    rifs = [s for s in stmts_of(rg) if isinstance(s, ast.If)]
+    out += f"def ring_aa_expr : String := {lean_str(ast.unparse(rifs[0].body[0].value))}\n"
+    return out
+
+
+@fragment("Masks", "stamp")
+def _():
+    fn = find_def(MK, "sparse_template_multi_stack")
+    sel = find_assign(fn, "selector")
+
+    def cond(e, env):
+        if isinstance(e, ast.BinOp) and isinstance(e.op, ast.Mult):
+            return f"({cond(e.left, env)} && {cond(e.right, env)})"
+        t, ty = tr(e, env)
+        if ty != BOOL:
+            raise Untranslatable("selector is not boolean")
+        return t
+    params = [("coord_y", INT), ("coord_x", INT), ("imageSizeY", INT), ("imageSizeX", INT)]
+    env = Env(vars={n: (n, t) for n, t in params})
+    out = lean_def("stamp_sel", params, BOOL, [], cond(sel.value, env),
+                   "in-image selector of `sparse_template_multi_stack`")
+    lp = [n for n in ast.walk(fn) if isinstance(n, ast.For)][0]
+    stores = {ast.unparse(s.targets[0]): ast.unparse(s.value) for s in lp.body if isinstance(s, ast.Assign)}
+    want = {"data[start:stop]": "template.flatten()", "coord_mask[start:stop]": "mask_index[i]",
+            "coord_y[start:stop]": "y.flatten() + offsetY[i]", "coord_x[start:stop]": "x.flatten() + offsetX[i]",
+            "start": "i * area", "stop": "(i + 1) * area"}
+    for k, v in want.items():
+        if stores.get(k) != v:
+            raise Untranslatable(f"stamp loop: {k} = {stores.get(k)}")
+    if ast.unparse(find_assign(fn, "(y, x)").value if False else [s for s in stmts_of(fn) if isinstance(s, ast.Assign) and ast.unparse(s.value) == "np.mgrid[0:fy, 0:fx]"][0].targets[0]).replace("(", "").replace(")", "") != "y, x":
+        raise Untranslatable("mgrid")
+    ret = [s for s in stmts_of(fn) if isinstance(s, ast.Return)][0]
+    out += f"\ndef stamp_return_expr : String := {lean_str(ast.unparse(ret.value))}\n"
+    return out
+
+
+@fragment("Masks", "sparse_circular")
+def _():
+    fn = find_def(MK, "sparse_circular_multi_stack")
+    b = find_assign(fn, "bbox")
+    bc_ = find_assign(fn, "bbox_center")
+    out = expr_def("sc_bbox", [("radius", RAT)], b.value, doc="`bbox` of `sparse_circular_multi_stack`")
+    out += "\n" + expr_def("sc_center", [("bbox", INT)], bc_.value)
+    call = [s for s in stmts_of(fn) if isinstance(s, ast.Return)][0].value
+    kws = {k.arg: ast.unparse(k.value) for k in call.keywords}
+    want = {"offsetX": "np.array(centerX, dtype=int) - bbox_center",
+            "offsetY": "np.array(centerY, dtype=int) - bbox_center", "template": "template"}
+    for k, v in want.items():
+        if kws.get(k) != v:
+            raise Untranslatable(f"sparse_circular: {k}={kws.get(k)}")
+    t = find_assign(fn, "template")
+    tk = {k.arg: ast.unparse(k.value) for k in t.value.keywords}
+    if tk != {"centerX": "bbox_center", "centerY": "bbox_center", "imageSizeX": "bbox",
+              "imageSizeY": "bbox", "radius": "radius"} or ast.unparse(t.value.func) != "circular":
+        raise Untranslatable(f"sparse_circular template {tk}")
+    return out
